@@ -428,6 +428,9 @@ func TestVerifC14(t *testing.T) {
 				// shim itself relies on): version line + JSON object with the whole legacy body as the offer
 				vj, _ := json.Marshal(map[string]string{"offer": string(body), "nat": strings.TrimSpace(nat), "fingerprint": ""})
 				arg := append([]byte("1.0\n"), vj...)
+				if len(arg) > readLimit {
+					return // the versioned spelling of this legacy body is itself beyond the size limit: nothing to compare
+				}
 				v := c14Do(addr, c14Raw("POST", "/client", nil, arg, true), "POST", 8*time.Second)
 				want := -1
 				var wantBody []byte
